@@ -204,9 +204,10 @@ def t_time(V):
 
 
 @ob('temporal/timedelta', marks=['positive', 'negative', 'zero'], budget=(60, 200), exhaustive=False,
-    bounds='timedelta(days -3..3, seconds 0..86399, microseconds 0..999999) as solver ints split at sign / zero / boundaries')
+    bounds='timedelta(days -999999999..999999999, seconds 0..86399, microseconds 0..999999) as solver ints split at sign / zero / '
+           'boundaries / the magnitudes where total_seconds() stops being exact (2**33, 2**34 s)')
 def t_timedelta(V):
-    days = split(V, 'days', V.int('days', -3, 3), [-1, 0, 1])
+    days = split(V, 'days', V.int('days', -999999999, 999999999), [-999999999, -200000, -99421, -1, 0, 1, 99421, 200000, 999999999])
     secs = split(V, 'seconds', V.int('seconds', 0, 86399), [1, 60, 3600, 86399])
     us = split(V, 'us', V.int('us', 0, 999999), [1, 1000, 100000, 999999])
     label = 'zero' if (days == 0 and secs == 0 and us == 0) else 'negative' if days < 0 else 'positive'
@@ -215,18 +216,23 @@ def t_timedelta(V):
 
 # ------------------------------------------------------------------ Decimal up to 15 significant digits
 @ob('decimal', marks=['integral', 'fraction', 'negative'], budget=(60, 200), exhaustive=False,
-    bounds='Decimal built from a solver-chosen coefficient (1..15 digits, split by digit count) and exponent -10..5, both signs; '
+    bounds='Decimal built from a solver-chosen coefficient (1..15 digits, split by digit count) and exponent -400..400 (split at the '
+           'double range limits 308/309, -308, -324), both signs; '
            'compared numerically after the round trip', out='more than 15 significant digits')
 def decimal_(V):
     nd = V.pick('digits', [1, 2, 7, 15])
     coef = V.int('coef', 10 ** (nd - 1) if nd > 1 else 0, 10 ** nd - 1)
     coef = split(V, 'coef', coef, [10 ** (nd - 1) + 1, 10 ** nd - 1])
-    exp = split(V, 'exp', V.int('exp', -10, 5), [-1, 0, 1])
+    exp = split(V, 'exp', V.int('exp', -400, 400), [-339, -324, -308, -10, -1, 0, 1, 5, 293, 308, 309])
     neg = V.bool('negative')
     with V.notrace():
         value = Decimal((1 if neg else 0, tuple(int(c) for c in str(coef)), exp))
         inst = RT(dec=value)
         text = json.dumps(inst, cls=JSONEncoder)
+        try:
+            json.loads(text, parse_constant=lambda c: (_ for _ in ()).throw(ValueError('non-standard JSON constant ' + c)))
+        except ValueError as e:
+            V.fail('roundtrip:non-standard-json:decimal', 'dec=%r encoded as %s: %s' % (value, text, e))
         try:
             back = RT.__from__(text)
         except exc.ParseError as e:
